@@ -50,8 +50,11 @@ class CopyPropagate:
                 src_defs = def_use.name_to_defs.get(d.site.expr.name, set())
                 if len(src_defs) != 1:
                     continue
-                if len(def_use.uses[d]) > 0:
-                    # optimization: only propagate if there is at least one use
+                if any(isinstance(u, Var) for u in def_use.uses[d]):
+                    # only propagate if there is at least one use that the
+                    # substitution rewrites; a use as the target of an indexed
+                    # assignment (`x[i] = e`) is left alone, and reporting a
+                    # change for it would keep `simplify` iterating forever
                     prop[d] = d.site.expr
 
         if not prop:
